@@ -438,3 +438,220 @@ func ruleXRefStreamCursor(c *eng.Ctx) {
 		c.Check(ok, R, key, ci.Pos(), "read position accumulates over all subsections", "the record position does not accumulate across /Index subsections: entries of the second and later subsections are read from the wrong records")
 	}
 }
+
+// R5.7 [C05]
+func ruleA85Constants(c *eng.Ctx) {
+	const R = "R5.7-A85-CONSTANTS"
+	c.Rule(R, "the ASCII85 decoder uses the constants of the encoding: radix 85, digit offset '!' (33), the 'z' shortcut (122), the end marker '~' (126), and 84 (= 'u'-'!') as the padding digit of a short final group: padding with zero instead yields wrong trailing bytes for every stream whose length is not a multiple of four", 5, 0)
+	fn := c.P.Func("internal/filters.ASCII85Decode")
+	if fn == nil {
+		c.Undec(R, "filters.ASCII85Decode", token.NoPos, "anchor not found")
+		return
+	}
+	seen := map[int64]bool{}
+	for _, h := range eng.Cluster(fn, 2) {
+		eng.Instrs(h, true, func(in ssa.Instruction) {
+			for _, op := range in.Operands(nil) {
+				if op == nil || *op == nil {
+					continue
+				}
+				if k, ok := eng.ConstInt(*op); ok {
+					seen[k] = true
+				}
+			}
+		})
+	}
+	for _, w := range []struct {
+		k    int64
+		what string
+	}{{85, "radix 85"}, {33, "digit offset '!'"}, {122, "'z' shortcut for four zero bytes"}, {126, "end marker '~'"}, {84, "padding digit 84 for a short final group"}} {
+		c.Check(seen[w.k], R, fmt.Sprintf("filters.ASCII85Decode#const %d", w.k), fn.Pos(), w.what, "the decoder no longer uses "+w.what+": streams that need it decode to wrong bytes")
+	}
+}
+
+// R13.5 [C13, C12]
+func ruleSplitLoopDrains(c *eng.Ctx) {
+	const R = "R13.5-SPLIT-LOOP-DRAINS"
+	c.Rule(R, "SplitToSize leaves its loop only when nothing remains or right after appending what remains: an exit on any other condition (a piece counter, a size estimate) silently drops the tail of the text", 2, 0)
+	fn := c.P.Func("rag.(*SizeCalculator).SplitToSize")
+	if fn == nil {
+		c.Undec(R, "rag.(*SizeCalculator).SplitToSize", token.NoPos, "anchor not found")
+		return
+	}
+	// the loop header: a block with a loop-carried phi of string type (the remaining text)
+	var hdr *ssa.BasicBlock
+	var rem *ssa.Phi
+	eng.Instrs(fn, false, func(in ssa.Instruction) {
+		ph, ok := in.(*ssa.Phi)
+		if !ok || !isLoopCarried(ph) || hdr != nil {
+			return
+		}
+		if bt, ok := ph.Type().Underlying().(*types.Basic); ok && bt.Info()&types.IsString != 0 {
+			hdr, rem = ph.Block(), ph
+		}
+	})
+	if hdr == nil {
+		c.Undec(R, "rag.(*SizeCalculator).SplitToSize#loop", fn.Pos(), "no loop over a remaining string found")
+		return
+	}
+	inLoop := map[*ssa.BasicBlock]bool{}
+	fromHdr := eng.ReachableBlocks([]*ssa.BasicBlock{hdr}, nil)
+	for _, b := range fn.Blocks {
+		if fromHdr[b] && eng.ReachableBlocks([]*ssa.BasicBlock{b}, nil)[hdr] {
+			inLoop[b] = true
+		}
+	}
+	inLoop[hdr] = true
+	isRem := func(v ssa.Value) bool {
+		for w := range eng.Slice(v, nil) {
+			if w == ssa.Value(rem) {
+				return true
+			}
+		}
+		return false
+	}
+	n := 0
+	appendsRest := func(blk *ssa.BasicBlock) bool {
+		for _, in := range blk.Instrs {
+			if call, ok := in.(*ssa.Call); ok {
+				if bi, isB := call.Call.Value.(*ssa.Builtin); isB && bi.Name() == "append" && len(call.Call.Args) == 2 {
+					for w := range eng.Slice(call.Call.Args[1], nil) {
+						if w == ssa.Value(rem) {
+							return true
+						}
+					}
+				}
+			}
+		}
+		return false
+	}
+	var loopBlocks []*ssa.BasicBlock
+	for _, b := range fn.Blocks { // block order: stable keys
+		if inLoop[b] {
+			loopBlocks = append(loopBlocks, b)
+		}
+	}
+	for _, b := range loopBlocks {
+		for si, s := range b.Succs {
+			if inLoop[s] {
+				continue
+			}
+			n++
+			key := fmt.Sprintf("rag.(*SizeCalculator).SplitToSize#exit%d", n)
+			pos := fn.Pos()
+			if len(b.Instrs) > 0 {
+				pos = b.Instrs[len(b.Instrs)-1].Pos()
+			}
+			// (a) the exit is taken because the remaining text is empty
+			drained := false
+			if f, ok := eng.EdgeFact(eng.Edge{From: b, Succ: si}); ok {
+				if _, x, y, ok := f.Cmp(); ok {
+					for _, side := range []ssa.Value{x, y} {
+						if call, isCall := side.(*ssa.Call); isCall {
+							if bi, isB := call.Call.Value.(*ssa.Builtin); isB && bi.Name() == "len" && isRem(call.Call.Args[0]) {
+								drained = true
+							}
+						}
+						if isRem(side) {
+							if _, isS := eng.ConstString(y); isS {
+								drained = true
+							}
+						}
+					}
+				}
+			}
+			// (b) what remains is appended on the way out: in the block the exit edge leads to (`append; break`)
+			// or in a block of this iteration that dominates the exit
+			if !drained {
+				for t, steps := s, 0; t != nil && steps < 3; steps++ {
+					if appendsRest(t) {
+						drained = true
+					}
+					if len(t.Succs) != 1 {
+						break
+					}
+					t = t.Succs[0]
+				}
+				for d := b; d != nil && inLoop[d] && !drained; d = d.Idom() {
+					if appendsRest(d) {
+						drained = true
+					}
+					if d == hdr {
+						break
+					}
+				}
+			}
+			c.Check(drained, R, key, pos, "exit with nothing left or after appending the rest", "the split loop can stop while text remains and without appending it: the tail of a long paragraph is dropped")
+		}
+	}
+	if n == 0 {
+		c.Undec(R, "rag.(*SizeCalculator).SplitToSize#loop", fn.Pos(), "loop without exit")
+	}
+}
+
+// R13.6 [C13]
+func ruleHardLimitGuard(c *eng.Ctx) {
+	const R = "R13.6-HARD-LIMIT-GUARD"
+	c.Rule(R, "SplitToSize does not cut at the raw result of the boundary search: the result is compared with the position of the hard maximum (derived from config.Max) and replaced by a break opportunity at or before it when it lies beyond (the searches look up to 100 bytes forward and accept semantic boundaries 25% past the target)", 2, 0)
+	fn := c.P.Func("rag.(*SizeCalculator).SplitToSize")
+	if fn == nil {
+		c.Undec(R, "rag.(*SizeCalculator).SplitToSize", token.NoPos, "anchor not found")
+		return
+	}
+	var search *ssa.Call
+	for _, ci := range eng.CallsNamed(fn, false, "rag.(*SizeCalculator).FindSplitPointAt") {
+		if call, ok := ci.(*ssa.Call); ok {
+			search = call
+		}
+	}
+	if search == nil {
+		c.Undec(R, "rag.(*SizeCalculator).SplitToSize#search", fn.Pos(), "no call of FindSplitPointAt")
+		return
+	}
+	// (1) the search result is compared with a position derived from config.Max
+	compared := false
+	eng.Instrs(fn, false, func(in ssa.Instruction) {
+		b, ok := in.(*ssa.BinOp)
+		if !ok {
+			return
+		}
+		switch b.Op {
+		case token.GTR, token.GEQ, token.LSS, token.LEQ:
+		default:
+			return
+		}
+		for _, s := range [][2]ssa.Value{{b.X, b.Y}, {b.Y, b.X}} {
+			if s[0] != ssa.Value(search) {
+				continue
+			}
+			for v := range eng.Slice(s[1], func(*ssa.Call) bool { return true }) {
+				if fr, ok := eng.AsField(v); ok && fr.Field == "Max" {
+					compared = true
+				}
+			}
+		}
+	})
+	c.Check(compared, R, "rag.(*SizeCalculator).SplitToSize#compared-with-max", search.Pos(), "search result compared with the hard maximum", "the boundary search result is never compared with the position of the hard maximum: a boundary found after it is used as it is")
+	// (2) the cut position is not the raw search result
+	raw := false
+	n := 0
+	eng.Instrs(fn, false, func(in ssa.Instruction) {
+		sl, ok := in.(*ssa.Slice)
+		if !ok {
+			return
+		}
+		if bt, ok := sl.X.Type().Underlying().(*types.Basic); !ok || bt.Info()&types.IsString == 0 {
+			return
+		}
+		for _, bnd := range []ssa.Value{sl.Low, sl.High} {
+			if bnd == nil {
+				continue
+			}
+			n++
+			if bnd == ssa.Value(search) {
+				raw = true
+			}
+		}
+	})
+	c.Check(n > 0 && !raw, R, "rag.(*SizeCalculator).SplitToSize#cut", search.Pos(), "the text is cut at the guarded position", "the text is cut at the raw search result")
+}
